@@ -141,7 +141,13 @@ Repeat == /\ lastcall # <<>> /\ lastcall[1] = "bin"
           /\ LET r == Build(arena, lastcall[2], lastcall[3], lastcall[4]) IN
              /\ ok' = (ok /\ r[2] = lastnode /\ r[1] = arena)
              /\ UNCHANGED <<arena, direct, lastcall, lastnode>> /\ calls' = calls + 1
-Next == calls < MaxCalls /\ (CallConst \/ CallUnary \/ CallBinary \/ Repeat)
+\* variables are nodes like any other: asking for one inserts it (or finds it)
+CallVar == \E v \in VarNames : Record(Insert(arena, <<"var", v>>), <<"var", v>>, <<"var", v>>)
+\* Context::clear: the arena is emptied; every node handed out before is invalid, and what is built afterwards must
+\* not depend on what was there before (Meaning and NoDup keep holding for the new arena)
+Clear == /\ arena' = <<>> /\ direct' = <<>> /\ lastcall' = <<>> /\ lastnode' = 0
+         /\ calls' = calls + 1 /\ UNCHANGED ok
+Next == calls < MaxCalls /\ (CallConst \/ CallUnary \/ CallBinary \/ Repeat \/ CallVar \/ Clear)
 Spec == Init /\ [][Next]_vars
 
 \* helper nodes (a constant inserted by a rewrite, e.g. the 2 of a + a) have no recorded term
